@@ -25,7 +25,7 @@ type LayoutCase struct {
 	Corpus string          `json:"corpus,omitempty"`
 }
 
-const corpusDir = run.VerifDir + "/corpus"
+var corpusDir = run.VerifDir + "/corpus"
 
 // decodeAndCompare decodes file bytes with the independent decoder and compares.
 func decodeAndCompare(b []byte, exp *ref.Content, mode uint32, merged bool) (kind, msg string) {
